@@ -597,7 +597,8 @@ fn gen_doc_case(c: &mut Ctx, r: &mut Rng, tables: &[(&str, [Option<u16>; 256])])
     cat.set("Pages", Object::Reference(pages_id));
     let cat_id = doc.add_object(Object::Dictionary(cat));
     doc.trailer.set("Root", Object::Reference(cat_id));
-    if r.chance(1, 2) { doc.compress(); c.count("extract.compressed"); }
+    let compressed = r.chance(1, 2);
+    if compressed { doc.compress(); c.count("extract.compressed"); }
 
     // reload
     let reloaded: Option<Document> = guard(|| { let mut d2 = doc.clone(); let mut buf = vec![]; d2.save_to(&mut buf).ok().and_then(|_| Document::load_mem(&buf).ok()) }).ok().flatten();
@@ -619,6 +620,11 @@ fn gen_doc_case(c: &mut Ctx, r: &mut Rng, tables: &[(&str, [Option<u16>; 256])])
         let res = guard(|| doc.extract_text(&[pn]));
         c.corr(req.clone(), show_res(&res));
         c.count(&format!("extract.page.{}", match &res { Ok(Ok(_)) => "ok", Ok(Err(_)) => "err", Err(_) => "panic" }));
+        // the whole document through the composed model (pages C12, fonts/content C13, decode C14, loop C16)
+        if !compressed {
+            c.corr(format!("c16.xdoc {} {} {}", pn, show_obj(&Object::Dictionary(doc.trailer.clone())), show_objects(doc.objects.iter())), show_res(&res));
+            c.count("extract.whole_document_model");
+        }
         // the same page from its content BYTES: Content::decode (C14's model) + the loop
         if let Some(pid) = doc.get_pages().get(&pn) {
             if let Ok(bytes) = doc.get_page_content(*pid) {
